@@ -73,9 +73,9 @@ Properties/C04.vos Properties/C04.vok Properties/C04.required_vos: Properties/C0
 Properties/C12.vo Properties/C12.glob Properties/C12.v.beautified Properties/C12.required_vo: Properties/C12.v Model/Types.vo Model/Book.vo Model/Obs.vo Spec/RefBook.vo Spec/Monitors.vo Proofs/Grid.vo Proofs/Refine.vo Proofs/Volumes.vo Proofs/LevelsAccount.vo Proofs/RestGrid.vo
 Properties/C12.vio: Properties/C12.v Model/Types.vio Model/Book.vio Model/Obs.vio Spec/RefBook.vio Spec/Monitors.vio Proofs/Grid.vio Proofs/Refine.vio Proofs/Volumes.vio Proofs/LevelsAccount.vio Proofs/RestGrid.vio
 Properties/C12.vos Properties/C12.vok Properties/C12.required_vos: Properties/C12.v Model/Types.vos Model/Book.vos Model/Obs.vos Spec/RefBook.vos Spec/Monitors.vos Proofs/Grid.vos Proofs/Refine.vos Proofs/Volumes.vos Proofs/LevelsAccount.vos Proofs/RestGrid.vos
-Properties/C13.vo Properties/C13.glob Properties/C13.v.beautified Properties/C13.required_vo: Properties/C13.v Model/Types.vo Model/Side.vo Model/Book.vo Model/Obs.vo Proofs/NoTrade.vo
-Properties/C13.vio: Properties/C13.v Model/Types.vio Model/Side.vio Model/Book.vio Model/Obs.vio Proofs/NoTrade.vio
-Properties/C13.vos Properties/C13.vok Properties/C13.required_vos: Properties/C13.v Model/Types.vos Model/Side.vos Model/Book.vos Model/Obs.vos Proofs/NoTrade.vos
+Properties/C13.vo Properties/C13.glob Properties/C13.v.beautified Properties/C13.required_vo: Properties/C13.v Model/Types.vo Model/Side.vo Model/Book.vo Model/Obs.vo Model/Rng.vo Model/Env.vo Proofs/NoTrade.vo Proofs/MarketNoTrade.vo
+Properties/C13.vio: Properties/C13.v Model/Types.vio Model/Side.vio Model/Book.vio Model/Obs.vio Model/Rng.vio Model/Env.vio Proofs/NoTrade.vio Proofs/MarketNoTrade.vio
+Properties/C13.vos Properties/C13.vok Properties/C13.required_vos: Properties/C13.v Model/Types.vos Model/Side.vos Model/Book.vos Model/Obs.vos Model/Rng.vos Model/Env.vos Proofs/NoTrade.vos Proofs/MarketNoTrade.vos
 Proofs/Ledger.vo Proofs/Ledger.glob Proofs/Ledger.v.beautified Proofs/Ledger.required_vo: Proofs/Ledger.v Model/Types.vo Model/Map.vo Model/Side.vo Model/Book.vo Proofs/Basic.vo
 Proofs/Ledger.vio: Proofs/Ledger.v Model/Types.vio Model/Map.vio Model/Side.vio Model/Book.vio Proofs/Basic.vio
 Proofs/Ledger.vos Proofs/Ledger.vok Proofs/Ledger.required_vos: Proofs/Ledger.v Model/Types.vos Model/Map.vos Model/Side.vos Model/Book.vos Proofs/Basic.vos
@@ -178,6 +178,9 @@ Proofs/MarketInv.vos Proofs/MarketInv.vok Proofs/MarketInv.required_vos: Proofs/
 Proofs/StepVolume.vo Proofs/StepVolume.glob Proofs/StepVolume.v.beautified Proofs/StepVolume.required_vo: Proofs/StepVolume.v Model/Types.vo Model/Map.vo Model/Side.vo Model/Book.vo Model/Obs.vo Model/Rng.vo Model/Env.vo Proofs/Basic.vo Proofs/Ledger.vo Proofs/EnvProps.vo
 Proofs/StepVolume.vio: Proofs/StepVolume.v Model/Types.vio Model/Map.vio Model/Side.vio Model/Book.vio Model/Obs.vio Model/Rng.vio Model/Env.vio Proofs/Basic.vio Proofs/Ledger.vio Proofs/EnvProps.vio
 Proofs/StepVolume.vos Proofs/StepVolume.vok Proofs/StepVolume.required_vos: Proofs/StepVolume.v Model/Types.vos Model/Map.vos Model/Side.vos Model/Book.vos Model/Obs.vos Model/Rng.vos Model/Env.vos Proofs/Basic.vos Proofs/Ledger.vos Proofs/EnvProps.vos
+Proofs/MarketNoTrade.vo Proofs/MarketNoTrade.glob Proofs/MarketNoTrade.v.beautified Proofs/MarketNoTrade.required_vo: Proofs/MarketNoTrade.v Model/Types.vo Model/Map.vo Model/Side.vo Model/Book.vo Model/Obs.vo Model/Rng.vo Model/Env.vo Proofs/Basic.vo Proofs/NoTrade.vo Proofs/StepVolume.vo
+Proofs/MarketNoTrade.vio: Proofs/MarketNoTrade.v Model/Types.vio Model/Map.vio Model/Side.vio Model/Book.vio Model/Obs.vio Model/Rng.vio Model/Env.vio Proofs/Basic.vio Proofs/NoTrade.vio Proofs/StepVolume.vio
+Proofs/MarketNoTrade.vos Proofs/MarketNoTrade.vok Proofs/MarketNoTrade.required_vos: Proofs/MarketNoTrade.v Model/Types.vos Model/Map.vos Model/Side.vos Model/Book.vos Model/Obs.vos Model/Rng.vos Model/Env.vos Proofs/Basic.vos Proofs/NoTrade.vos Proofs/StepVolume.vos
 Properties/C01.vo Properties/C01.glob Properties/C01.v.beautified Properties/C01.required_vo: Properties/C01.v Model/Types.vo Model/Map.vo Model/Side.vo Model/Book.vo Model/Obs.vo Spec/RefBook.vo Proofs/Ledger.vo Proofs/Refine.vo Proofs/RefProps.vo Proofs/Volumes.vo Proofs/Reload.vo Proofs/Progress.vo
 Properties/C01.vio: Properties/C01.v Model/Types.vio Model/Map.vio Model/Side.vio Model/Book.vio Model/Obs.vio Spec/RefBook.vio Proofs/Ledger.vio Proofs/Refine.vio Proofs/RefProps.vio Proofs/Volumes.vio Proofs/Reload.vio Proofs/Progress.vio
 Properties/C01.vos Properties/C01.vok Properties/C01.required_vos: Properties/C01.v Model/Types.vos Model/Map.vos Model/Side.vos Model/Book.vos Model/Obs.vos Spec/RefBook.vos Proofs/Ledger.vos Proofs/Refine.vos Proofs/RefProps.vos Proofs/Volumes.vos Proofs/Reload.vos Proofs/Progress.vos
